@@ -20,6 +20,7 @@ EXPLANATION = (
     "response's host/id/serial(/name). Arrival timing is not decided."
     " Added later: match() is decided on witness datagrams in the vendor format (commas in the name, empty and non-ASCII names) propagated through the source by the checker's interpreter; the search loop's condition is evaluated for an empty and a non-empty response set while the counter runs."
     ' Rounds 7-8: R2 also evaluates decode() on vendor-format and foreign witness datagrams (exact fields / DecodeError); R4 also: datagram_received keeps no state between datagrams.'
+    ' Rounds 9-10: R2 also: equality and hash of the response cover every field; R4 also: no callback of the discovery protocol raises; R5 also: _search puts no deadline on the searches and cancels none.'
 )
 ASSUMPTIONS = ["vendor discovery formats: AT4 'IP,MAC,AirTouch4,ID' on UDP 49004 (reverse engineered), AT5 'IP,ConsoleID,AirTouch5,AirTouchID,Name' on UDP 49005 (protocol v1.2 p.13)"]
 FLOORS = {"C18.R1": 8, "C18.R2": 14, "C18.R3": 3, "C18.R4": 4, "C18.R5": 6}
